@@ -30,6 +30,10 @@ CHECKS = [
      "text": "Lean theorems: an accepted callback call is inside an evaluation after the filter update, once, and its argument is wouldReturn(filter, penalty in force) - the selection of Model/Filter.lean that result_is_would_return shows _build_result uses; callback calls = nfev; StopIteration at call k gives status 3 and nfev = k. Real runs with five callback shapes, overwriting callbacks and stops at every k are replayed.",
      "note": RUNNOTE + " Signature introspection and freshness of the array are exercised by the harness (callback shapes, overwriting callbacks) but have no theorem.",
      "technique": "Lean 4 proof (state-machine invariants + filter selection) + trace validation of real runs"},
+    {"id": "C19", "level": "proof",
+     "text": "Lean theorems over exact rationals, every subset of settings supplied, every value: if the checks do not raise, every supplied value lies in its documented domain and supplied pairs are in the documented order (contrapositive: out-of-domain values raise ValueError), the completed settings satisfy all documented relations, supplied values are kept, absent ones take the defaults; the defaults (regenerated table) are valid and equal the documented ones (decide). The same definitions run on Float are compared exactly (messages and completed values) with the real minimize on the boundary lattice of every setting, the coupled pairs and random subsets.",
+     "note": "Theorems are about lean/CobyqaVerif/Model/Settings.lean over Rat; Gen/Settings.lean is regenerated from settings.py / the docstring by harness/translate.py on every run. Rounding is outside the theorems and visible only in the Float correspondence (one known finding: increase_radius_factor = nextafter(1)). Boolean settings and NaN values are not modelled. Trusted: Lean kernel + 3 standard axioms, translator, harness.",
+     "technique": "Lean 4 proof over Q (case analysis + linear arithmetic) + generated tables + differential correspondence"},
 ]
 NOT_APPLICABLE = [{"property_id": f"C{i:02d}", "reason": _PENDING} for i in range(1, 21) if f"C{i:02d}" not in {c["id"] for c in CHECKS}]
 ENGINES[0]["serves_properties"] = [c["id"] for c in CHECKS]
